@@ -394,7 +394,9 @@ fn optimize_stmt(
           loop_value,
         })
         .collect_vec();
-      if let Some((Statement::Break(e), rest)) = stmts.split_last() {
+      if let Some((Statement::Break(e), rest)) = stmts.split_last()
+        && !has_break_of_enclosing_loop(rest)
+      {
         // Now we know that the loop will only loop once!
         for v in loop_variables {
           value_cx.checked_bind(v.name, v.initial_value);
@@ -492,6 +494,19 @@ fn optimize_stmts(
   false
 }
 
+/// Whether the statements can leave the loop they are in before their end:
+/// such a loop body cannot be spliced into the code around the loop.
+fn has_break_of_enclosing_loop(stmts: &[Statement]) -> bool {
+  stmts.iter().any(|stmt| match stmt {
+    Statement::Break(_) => true,
+    Statement::IfElse { s1, s2, .. } => {
+      has_break_of_enclosing_loop(s1) || has_break_of_enclosing_loop(s2)
+    }
+    Statement::SingleIf { statements, .. } => has_break_of_enclosing_loop(statements),
+    _ => false,
+  })
+}
+
 fn try_optimize_loop_for_some_iterations(
   mut loop_variables: Vec<GenenalLoopVariable>,
   mut stmts: Vec<Statement>,
@@ -514,8 +529,8 @@ fn try_optimize_loop_for_some_iterations(
       binary_expr_cx,
       &mut first_run_optimized_stmts,
     );
-    if let Some(last_stmt) = first_run_optimized_stmts.last() {
-      if !last_stmt.is_break() {
+    if let Some((last_stmt, rest)) = first_run_optimized_stmts.split_last() {
+      if !last_stmt.is_break() || has_break_of_enclosing_loop(rest) {
         pop_scope(value_cx, index_access_cx, binary_expr_cx);
         return vec![Statement::While { loop_variables, statements: stmts, break_collector }];
       }
